@@ -47,6 +47,19 @@ empty @is_you(const byte[] c) {
 }""",
 }
 
+# writes that are later undone, or that precede defeat in a try: what is printed must be exactly the committed text
+UNDONE = """
+empty !maybe(int k) { write("in "); write(k); !truth_is_defeat(k > 1); write(" ok "); }
+empty @is_you(int n, string s) {
+    try { write("> try "); write(s); write(s is byte[]); write(n); write(n > 0); write('c'); !is_defeat(); } undo { writeln("> undo"); }
+    try { write("A"); write(s); !truth_is_defeat(n == 1); writeln(" kept"); } undo { writeln("B"); }
+    try { write("C "); write(s is byte[]); writeln(n - 5); !truth_is_defeat(n == 2); } stop { writeln(" stopped"); }
+    for (int k = 0; k < 4; k += 1) { try { !maybe(k); writeln(s); } undo { write("skip "); writeln(k); } }
+    byte[] m = ['m', 'u', 't']; try { write(m); preempt { writeln(" pre"); return; } write(" post"); !truth_is_defeat(n == 0); writeln(m); } undo { writeln("never"); }
+    writeln(s.length);
+}
+"""
+
 NONINT = """
 empty dump(int s1, byte s2, bool s3, const int[] ai, const byte[] ab, const bool[] ao, const string[] as, const int[] vl) {
     write(s1); write(s2); write(s3); write(ai[0]); write(ai[1]); write(ab); write(ao[0]); write(ao[1]); write(ao[2]);
@@ -147,6 +160,8 @@ def items(tier):
             i += 1
     out.append((i, 'bytebool'))
     i += 1
+    out.append((i, 'undone'))
+    i += 1
     for kind in STR_PROGS:
         ss = strings()
         for c in range(0, len(ss), 12):
@@ -216,6 +231,9 @@ def run_item(item, tier):
             (b'true ' if i else b'false ') + (b'true\n' if i == 0 else b'false\n') for i in range(-2, 3))
         for W in (2, 3, 4):
             _run_expect(st, BYTE_BOOL, [], W, exp, f'write(byte)/write(bool) at W={W}', case, n=256)
+    elif kind == 'undone':
+        from ..cases import run_program
+        run_program(st, UNDONE, [[str(n), t] for n in (0, 1, 2, 3) for t in ('', 'x', 'text with spaces', 'é')], [2, 4], 'writes inside tries that are undone or stopped')
     elif kind == 'str':
         _, _, sk, ss = item
         src = STR_PROGS[sk]
@@ -254,6 +272,8 @@ def coverage(total, tier):
         'write(byte), write(bool)': 'all 256 bytes; both booleans; bool derived from -2..2; W in 2,3,4',
         'write(string / byte arrays)': 'every length 0..64 plus non-ASCII/control samples, from a string, a state argv array, a const '
                                         'argv array, a stack VLA and a const local, W in 2,4',
+        'undone writes': 'every write overload inside try/undo and try/stop bodies that end in defeat, in a loop of tries through a defeat function, and before a preempt return; '
+                         'n in 0..3 x 4 strings; committed output compared with the reference interpreter',
         'non-interference': 'caller holding 3 scalars, int/byte/bool/string arrays and a VLA, dumped after every call, at every stack '
                             'size from 1 word to S_min+4 (below S_min: must be a clean stack_overflow) with the C04 monitor on; '
                             'arguments incl. the most negative integer; W in ' + ('2,3,4,8' if tier == 'thorough' else '2,3'),
@@ -274,5 +294,8 @@ def vacuity(total, tier):
 def replay(case):
     if case.get('kind') == 'sweep':
         return replay_sweep(case)
+    if case.get('kind') == 'conformance':
+        from ..cases import replay_conformance
+        return replay_conformance(case)
     st = run_item(tuple(case['item']), case['tier'])
     return [v['msg'] for v in st.get('viol', [])]
